@@ -80,11 +80,26 @@ func oracleC02(rep *Report, x *distilled, replay interface{}) {
 	for _, t := range srcToks {
 		srcSet[t] = true
 	}
+	// words that are in the source only inside non-rendered elements are not "visible text"
+	var tw func(*html.Node)
+	tw = func(n *html.Node) {
+		if n.Type == html.TextNode {
+			if cls, _ := hiddenClass(n); strings.HasPrefix(cls, "hidden:") {
+				for _, t := range tokensOf(n.Data) {
+					delete(srcSet, t)
+				}
+			}
+		}
+		for c := n.FirstChild; c != nil; c = c.NextSibling {
+			tw(c)
+		}
+	}
+	tw(x.D.Root)
 	check := func(view string, toks []string) {
 		seen := map[string]bool{}
 		for _, t := range toks {
 			if !srcSet[t] {
-				rep.violate(map[string]string{"clause": "invented", "view": view}, fmt.Sprintf("%s contains word %s that is not in the source", view, t), replay)
+				rep.violate(map[string]string{"clause": "invented", "view": view}, fmt.Sprintf("%s contains word %s that is not in the visible text of the source", view, t), replay)
 				return
 			}
 			if seen[t] {
